@@ -6,7 +6,15 @@ from fw import g_bool, g_list, g_nats, g_opt, g_str
 
 UNIT = 'zope.testrunner.layer.UnitTests'
 HOUT = {'ok': 'HOk', 'raise': 'HRaise', 'notimpl': 'HNotImpl'}
-PO = {'ok': 'Pok', 'fail': 'Pfail', 'error': 'Perr', 'skip': 'Pskip', 'exit': 'Perr'}
+PO = {'ok': 'Pok', 'fail': 'Pfail', 'error': 'Perr', 'skip': 'Pskip', 'exit': 'Perr', 'raise': 'Perr', 'die': 'Pok'}
+
+
+def po(x):
+    return PO[x[0] if isinstance(x, list) else x]
+
+
+def hout(x):
+    return HOUT.get(x, 'HOk')
 PHASE = {'t_setUp': 0, 't_body': 1, 't_sub': 2, 't_tearDown': 3, 't_cleanup': 4}
 
 
@@ -25,15 +33,15 @@ def g_world(world, mod):
         h = L.get('hooks', {})
 
         def sc(k):
-            return g_opt(g_list([HOUT[x] for x in h[k]])) if k in h else 'None'
+            return g_opt(g_list([hout(x) for x in h[k]])) if k in h else 'None'
         specs.append('{| l_setup := %s; l_teardown := %s; l_tsetup := %s; l_tteardown := %s |}' % (
             sc('setUp'), sc('tearDown'), g_bool('testSetUp' in h), g_bool('testTearDown' in h)))
     tests = []
     for T in world['tests']:
         tests.append('{| t_layer := %d; t_deco := %s; t_xf := %s; t_su := %s; t_subs := %s; t_body := %s; t_td := %s; t_cl := %s |}' % (
             lidx(world, T['layer']), g_bool(T.get('deco_skip', False)), g_bool(T.get('xf', False)),
-            PO[T.get('setUp', 'ok')], g_list([PO[x] for x in T.get('subs', [])]), PO[T.get('body', 'ok')],
-            PO[T.get('tearDown', 'ok')], g_list([PO[x] for x in T.get('cleanups', [])])))
+            po(T.get('setUp', 'ok')), g_list([po(x) for x in T.get('subs', [])]), po(T.get('body', 'ok')),
+            po(T.get('tearDown', 'ok')), g_list([po(x) for x in T.get('cleanups', [])])))
     return '{| lw := %s; lsp := %s; tests := %s |}' % (lw, g_list(specs), g_list(tests))
 
 
@@ -65,7 +73,7 @@ def g_opts(world, import_errors=0):
 def g_oev(r):
     kind = r[0]
     if kind in ('setUp', 'tearDown'):
-        return '(%s %d %s)' % ('OSetUp' if kind == 'setUp' else 'OTearDown', r[1] + 1, HOUT[r[2]])
+        return '(%s %d %s)' % ('OSetUp' if kind == 'setUp' else 'OTearDown', r[1] + 1, hout(r[2]))
     if kind == 'testSetUp':
         return '(OTSetUp %d)' % (r[1] + 1)
     if kind == 'testTearDown':
@@ -118,7 +126,7 @@ def to_coq(world, obs):
     if obs.get('driver_failed'):
         # the driver itself died: report as aborted with empty observation
         return ('{| w := %s; o := %s; i_parent := []; i_children := []; i_ran := 0; i_fail := []; i_err := []; i_skip := 0; '
-                'i_failed := true; i_aborted := true; i_summaries := []; i_total := None |}' % (g_world(world, mod), g_opts(world)))
+                'i_failed := true; i_aborted := true; i_summaries := []; i_total := None; i_injected := false |}' % (g_world(world, mod), g_opts(world)))
     parent, children, order = worldrun.split_processes(obs)
     pe = [g_oev(r) for r in parent]
     ch = []
@@ -128,13 +136,14 @@ def to_coq(world, obs):
         ch.append('(%d%%nat, %s)' % (999 if i is None else i, g_list([e for e in evs if e])))
     so = worldrun.parse_stdout(obs['stdout'])
     return ('{| w := %s; o := %s; i_parent := %s; i_children := %s; i_ran := %d; i_fail := %s; i_err := %s; i_skip := %d; '
-            'i_failed := %s; i_aborted := %s; i_summaries := %s; i_total := %s |}' % (
+            'i_failed := %s; i_aborted := %s; i_summaries := %s; i_total := %s; i_injected := %s |}' % (
                 g_world(world, mod), g_opts(world, obs.get('import_errors', 0)),
                 g_list([e for e in pe if e]), g_list(ch), obs['ran'],
                 g_list([g_name(s, world, mod) for s in obs['failures']]),
                 g_list([g_name(s, world, mod) for s in obs['errors']]), obs['n_skipped'],
                 g_bool(obs['failed']), g_bool(obs['aborted'] is not None),
-                g_list([g_quad(q) for q in so['summaries']]), g_opt(None if so['total'] is None else g_quad(so['total']))))
+                g_list([g_quad(q) for q in so['summaries']]), g_opt(None if so['total'] is None else g_quad(so['total'])),
+                g_bool(bool(world.get('injected')))))
 
 
 # ---------------------------------------------------------------- generator
